@@ -10,12 +10,13 @@ FUNCTIONS = ["strtoint", "strtoint_clipped", "evdns_strtotimeval", "str_matches_
              "evdns_nameserver_add_impl_", "search_postfix_clear", "search_postfix_add", "search_reverse",
              "evdns_base_parse_hosts_line", "evdns_base_resolv_conf_parse_impl", "evdns_base_load_hosts_impl",
              "evdns_base_new", "evdns_base_free_and_unlock"]
-BOUNDS = ("integer values <= 12 characters; time values: every double; option text: each of the 17 documented names "
-          "(whole or short of its last character) followed by <= 3 arbitrary bytes, and every text <= 10 bytes; option "
-          "values <= 4 bytes (integers: <= 12 via the integer obligation); resolv.conf line <= 14 bytes (quick) / 16 "
-          "(thorough), hosts line <= 12 / 14 bytes; files of exactly 6 (quick) / 8 bytes; pre-state: evdns_base_new() "
-          "plus at most one nameserver and one search domain with ndots 0..9")
-OUT = ("text->double conversion (libc strtod, contract: any double, any end pointer); the address syntax itself "
+BOUNDS = ("integer values: every text <= 12 bytes and every (value, end) pair strtol can report; time values: every double and end pointer strtod "
+          "can report; option text: each documented name (9 in the quick tier, all 17 thorough; whole or short of its last character) followed "
+          "by <= 3 arbitrary bytes, and every text <= 8/10 bytes in an exact object; option values <= 4 bytes; resolv.conf lines: every line <= 7/8 "
+          "bytes in an exact object, and each directive keyword (whole or short of its last character) followed by <= 4..8 arbitrary bytes; "
+          "hosts lines <= 6/8 bytes in an exact object; files of exactly 6/8 bytes; pre-state: evdns_base_new() plus at most one nameserver "
+          "and one search domain with ndots 0..9; the address parser's verdict (rejects / IPv4 / IPv6) enumerated per obligation")
+OUT = ("text->integer and text->double conversion (libc strtol / strtod, contracts: any value, any end pointer); the address syntax itself "
        "(evutil_parse_sockaddr_port: C40; contract: fails or returns any AF_INET/AF_INET6 address and port); hosts lines "
        "whose comment starts inside the address field (\"1.2.3.4#x\": memory safety only); allocation failure inside the "
        "parsers; whole files longer than the bound (the per-line routines are decided per line, the splitter with "
@@ -29,7 +30,8 @@ NOTE = ("Leniencies the reference shares with the code (not reported): leading b
         "(values beyond int wrap instead of saturating), KF-C39-timeval-range (NaN/inf/huge seconds are converted with "
         "undefined behaviour and stored as garbage), KF-C39-ndots-reset (domain/search lines and the end-of-file "
         "default reset ndots to 1, so `options ndots:n` is lost).")
-ASSUMPTIONS = ["strings contain no NUL before their terminator (they are C strings handed over by strtok_r/the caller)",
+ASSUMPTIONS = ["search-list entries and hosts entries are served from one typed object with room for 24 text bytes; every memcpy into them is checked against the requested size (env/dns_typed_alloc_post.h)",
+               "strings contain no NUL before their terminator (they are C strings handed over by strtok_r/the caller)",
                "evdns_base_set_option: val == NULL only for options without value (dns.h)",
                "max-inflight values in harness_option are <= 15 (keeps the request table small; clipping is decided in harness_int)",
                "evdns_nameserver_add_impl_ in the pre-state succeeded"]
@@ -47,7 +49,7 @@ TIME_OPTS = {1, 2, 8, 13}
 
 def ob(name, entry, desc, defines=(), unwind=8, unwindset=(), timeout=600, mem_gb=4, **kw):
     d = dict(name=name, harness="C39_conf.c", entry=entry, desc=desc, defines=list(defines), unwind=unwind,
-             unwindset=list(unwindset) + ["vpd_memset.0:130", "vpd_memcpy.0:130", "vpd_memcpy_var.0:30", "vpe_memcpy.0:130", "vpd_calloc.0:15", "evdns_base_set_max_requests_inflight.4:15", "vpd_check_write.0:10", "c39_sa_equal.0:18"],
+             unwindset=list(unwindset) + ["vpd_memset.0:130", "vpd_memcpy.0:130", "vpd_memcpy_var.0:30", "vpe_memcpy.0:130", "vpd_calloc.0:15", "evdns_base_set_max_requests_inflight.4:15", "vpd_check_write.0:10", "c39_sa_equal.0:18", "vpe_timeout_set.0:10", "vpe_timeout_of.0:10"],
              cbmc=list(CHK) + ["--object-bits", "10"] + list(kw.pop("cbmc", [])), timeout=timeout, mem_gb=mem_gb)
     d.update(kw)
     return d
